@@ -51,6 +51,9 @@ pub enum COp {
     Wait(u32),
     /// environment fault: L's new outbound substreams are slow to open (held back) / released again
     HoldOpens(bool),
+    /// environment fault: the remote node stops making progress while its end of the link stays up (none of its tasks is
+    /// scheduled) / runs again
+    FreezeRemote(bool),
 }
 
 #[derive(Clone, Debug, Serialize, Deserialize)]
@@ -264,6 +267,15 @@ impl Scenario for ConnScenario {
             }
             COp::Wait(n) => st.wait = Some(n),
             COp::HoldOpens(hold) => w.nodes[st.l].script.set_hold_opens(hold),
+            COp::FreezeRemote(freeze) => {
+                if freeze {
+                    for t in w.nodes[st.r].tasks.clone() {
+                        w.driver.frozen.insert(t);
+                    }
+                } else {
+                    w.driver.frozen.clear();
+                }
+            }
         }
     }
 
@@ -678,6 +690,9 @@ pub fn scenarios(filter: &str, thorough: bool) -> Vec<ConnScenario> {
                 vec![Connect, OpenX, KillRemote],
                 vec![Connect, CutLink(0), Connect, OpenX, CutLink(1)],
                 vec![Connect, OpenX, ForceCloseX, OpenX],
+                // a local force close of a peer that holds two connections: both end, in either order
+                vec![Connect, ConnectBack, ForceCloseX],
+                vec![Connect, ConnectBack, OpenX, ForceCloseX, RemoteOpenX],
                 vec![ConnectBack, RemoteOpenX, OpenX, CutLink(0)],
                 vec![Connect, OpenX, OpenX, OpenX, KillRemote],
             ] {
@@ -709,6 +724,7 @@ pub fn scenarios(filter: &str, thorough: bool) -> Vec<ConnScenario> {
                 vec![Connect, KillRemote],
                 vec![Connect, OpenX, OpenY, KillRemote],
                 vec![Connect, ForceCloseX],
+                vec![Connect, ConnectBack, ForceCloseX],
                 vec![Connect, ConnectBack, CutLink(0), CutLink(1)],
                 vec![Connect, ConnectBack, CutLink(1), CutLink(0)],
                 vec![Connect, CutLink(0), Connect, CutLink(1)],
@@ -758,6 +774,10 @@ pub fn scenarios(filter: &str, thorough: bool) -> Vec<ConnScenario> {
                 v.push(sc("c09", t, ping, tail, vec![Connect, OpenX, Wait(1), HalfCloseX(0), Wait(8)]));
                 v.push(sc("c09", t, ping, tail, vec![Connect, Wait(2), RemoteOpenX]));
             }
+            // the remote stalls for longer than a ping may take (20 s): the ping protocol gives up on its substream and opens
+            // a new one on a connection it no longer holds (only the held X substream keeps it open); once that substream
+            // is dropped the connection must idle out although ping keeps using it
+            v.push(sc("c09", t, true, tail, vec![Connect, OpenX, Wait(5), FreezeRemote(true), Wait(22), FreezeRemote(false), Wait(2), DropSubX(0)]));
             // secondary connection role
             v.push(sc("c09", t, false, tail, vec![Connect, ConnectBack]));
             v.push(sc("c09", t, false, tail, vec![Connect, ConnectBack, Wait(2), OpenX, DropSubX(0)]));
@@ -1063,6 +1083,113 @@ pub fn dial_failures_reach_a_clogged_protocol(ctx: &mut Ctx, commands_while_bloc
 /// virtual time. `TcpConnection`'s ForceClose arm must still tell every protocol and the manager, exactly once, after X
 /// drains (the SimNet variant above ends the connection by cutting the carrier and exercises the mirror; this one
 /// exercises `transport/tcp/connection.rs` itself).
+/// Connections nobody holds, on real `TcpTransport` nodes: two nodes WITHOUT any protocol, the dialer connects `CYCLES`
+/// times in a row. A connection no protocol holds ends the moment its task first runs, i.e. its closure is reported while
+/// the transport manager is still completing the establishment. On both nodes and for every cycle the application must
+/// see `ConnectionEstablished(N)` and then `ConnectionClosed(N)`, once each and in that order, and the peer can be dialed
+/// again afterwards. `seed` fixes the start branch of the manager's `select!`.
+fn connections_nobody_holds_on_real_tcp(ctx: &mut Ctx, seed: u64) {
+    const CYCLES: usize = 6;
+    let result = std::thread::spawn(move || -> Result<usize, Viol> {
+        let rt = crate::env::driver::runtime_io(seed);
+        rt.block_on(async {
+            let (_park_tx, park_rx) = std::sync::mpsc::channel::<()>();
+            let _parked = tokio::task::spawn_blocking(move || {
+                let _ = park_rx.recv();
+            });
+            let mut w = World::new();
+            let l = w.add_tcp_node(71, ConfigBuilder::new()).map_err(|e| Viol::new("machinery/bare-node", e))?;
+            let r = w.add_tcp_node(72, ConfigBuilder::new()).map_err(|e| Viol::new("machinery/bare-node", e))?;
+            async fn settle(w: &mut World) {
+                loop {
+                    w.run_to_quiescence(1_000_000);
+                    if !e2::settle_io(w).await {
+                        break;
+                    }
+                }
+            }
+            settle(&mut w).await;
+            let addr_r = w.nodes[r].address.clone();
+            let conn_id = |s: &str| -> Option<u64> {
+                let i = s.find("ConnectionId(")? + "ConnectionId(".len();
+                s[i..].split(')').next()?.parse().ok()
+            };
+            for cycle in 0..CYCLES {
+                let _ = w.nodes[l].cmd.send(NodeCmd::DialAddress(addr_r.clone()));
+                for _ in 0..3 {
+                    settle(&mut w).await;
+                    tokio::time::advance(Duration::from_millis(200)).await;
+                }
+                settle(&mut w).await;
+                for (who, n) in [("dialer", l), ("listener", r)] {
+                    let log: Vec<String> = w.nodes[n]
+                        .log
+                        .lock()
+                        .iter()
+                        .map(|e| match e {
+                            NodeLog::Event(s) => s.chars().take(600).collect(),
+                            NodeLog::DialResult(_, r) => format!("dial -> {r:?}"),
+                        })
+                        .collect();
+                    let mut state: BTreeMap<u64, u8> = BTreeMap::new(); // 1 = established, 2 = closed
+                    for e in &log {
+                        let Some(id) = conn_id(e) else { continue };
+                        let st = state.entry(id).or_insert(0);
+                        if e.starts_with("ConnectionEstablished") {
+                            if *st != 0 {
+                                return Err(Viol::new(
+                                    if *st == 2 { "c07/app-established-after-closed/tcp-connection-nobody-holds" } else { "c07/app-established-twice/tcp-connection-nobody-holds" },
+                                    format!("TCP, nodes without protocols, cycle {cycle}, seed {seed}: the {who} application saw ConnectionEstablished for connection {id} after it had already seen {}; log {log:?}", if *st == 2 { "its ConnectionClosed" } else { "it established" }),
+                                ));
+                            }
+                            *st = 1;
+                        } else if e.starts_with("ConnectionClosed") {
+                            if *st != 1 {
+                                return Err(Viol::new(
+                                    if *st == 0 { "c07/app-closed-before-established/tcp-connection-nobody-holds" } else { "c07/app-closed-twice/tcp-connection-nobody-holds" },
+                                    format!("TCP, nodes without protocols, cycle {cycle}, seed {seed}: the {who} application saw ConnectionClosed for connection {id} {}; log {log:?}", if *st == 0 { "before any ConnectionEstablished for it" } else { "twice" }),
+                                ));
+                            }
+                            *st = 2;
+                        }
+                    }
+                    let established = state.values().filter(|s| **s >= 1).count();
+                    let closed = state.values().filter(|s| **s == 2).count();
+                    let refused = log.iter().filter(|e| e.starts_with("dial -> Err")).count();
+                    if refused > 0 {
+                        return Err(Viol::new(
+                            "c07/cannot-redial-after-close/tcp-connection-nobody-holds",
+                            format!("TCP, nodes without protocols, cycle {cycle}, seed {seed}: the {who}'s dial was refused although every earlier connection had been reported closed; log {log:?}"),
+                        ));
+                    }
+                    if established != cycle + 1 || closed != cycle + 1 {
+                        return Err(Viol::new(
+                            "c07/app-missed-connection/tcp-connection-nobody-holds",
+                            format!("TCP, nodes without protocols, after cycle {cycle}, seed {seed}: the {who} application saw {established} connections established and {closed} closed, expected {} each; log {log:?}", cycle + 1),
+                        ));
+                    }
+                }
+            }
+            Ok(w.driver.steps as usize)
+        })
+    })
+    .join();
+    match result {
+        Ok(Ok(steps)) => {
+            ctx.cov_add("transitions", steps as u64);
+            ctx.cov_add("traces_validated_against_impl", 1);
+            ctx.cov_add("tcp_connections_nobody_holds_runs", 1);
+        }
+        Ok(Err(v)) if v.signature.starts_with("machinery/") => ctx.machinery_error(format!("{}: {}", v.signature, v.what)),
+        Ok(Err(v)) => ctx.violation(crate::report::Violation {
+            signature: v.signature,
+            what: v.what,
+            replay: serde_json::json!({"engine": "scripted", "scenario": "connections_nobody_holds_on_real_tcp", "seed": seed}),
+        }),
+        Err(_) => ctx.machinery_error("TCP connections-nobody-holds scenario panicked"),
+    }
+}
+
 fn backpressure_force_close_tcp(ctx: &mut Ctx) {
     use crate::env::node::MonitorCmd;
     let result = std::thread::spawn(|| -> Result<(usize, usize), Viol> {
@@ -1269,6 +1396,9 @@ pub fn run_filtered(ctx: &mut Ctx, filter: &'static str) {
     if filter == "c07" {
         backpressure_order_check(ctx);
         backpressure_force_close_tcp(ctx);
+        for seed in 1..=if thorough { 24 } else { 6 } {
+            connections_nobody_holds_on_real_tcp(ctx, seed);
+        }
     }
     if filter == "c08" {
         frozen_remote_open_backlog_tcp(ctx);
